@@ -28,7 +28,11 @@ ID = "C06"
 GEN_DEPENDS = ["PyBits"]
 RULE = ("operation histories (<= 14 ops) over 2-5 TreeArrays built from random trees (3-7 taxa, polytomies, basal "
         "bifurcations, None lengths, weights, ultrametric trees with node ages): add/insert(any index)/update/extend/+=/+ "
-        "incl. empties, self-merges, both rootings, explicit and implicit rooting, matching and mismatching settings; "
+        "incl. empties, self-merges, both rootings, explicit and implicit rooting, matching and mismatching settings, with interim "
+        "summaries (consensus / MCC / summarize_splits_on_tree / restore_tree / the per-split summary tables in either order / "
+        "frequencies) between the additions, and the same trees built one at a time next to the merged master; at the end every "
+        "array's per-split edge-length and node-age summaries (tables and target-tree annotations: mean, median, sd, range) are read "
+        "before anything refreshes the frequencies and compared with brute force; "
         "SumTrees schedules = (file->worker assignment, arrival order) on the real collation/worker code; thorough adds every "
         "schedule for <= 3 files x <= 4 workers, every partition/arrival order of <= 4 trees into <= 3 parts, and real "
         "multi-process CLI runs (-M, -m 2, -m 3, five times each, every other one pinned to one CPU); schedules with asynchronous "
@@ -480,6 +484,110 @@ def run_queries(ta, exp_trees):
     return res, None
 
 
+# ======================================================================================= per-split summaries
+def interim_query(dendropy, tns, ta, o, kind):
+    """one of the summaries a user may ask for between two additions; results are discarded, exceptions ignored here
+    (the final queries report them)"""
+    try:
+        with time_limit(20):
+            sd = ta._split_distribution
+            if kind == "cons":
+                ta.consensus_tree()
+            elif kind == "mcc":
+                if len(ta):
+                    ta.maximum_product_of_split_support_tree()
+            elif kind == "summarize":
+                if o.trees:
+                    ta.summarize_splits_on_tree(build_tree(dendropy, tns, o.trees[0][0]))
+            elif kind == "props_ea":
+                sd.split_edge_length_summaries
+                sd.split_node_age_summaries
+            elif kind == "props_ae":
+                sd.split_node_age_summaries
+                sd.split_edge_length_summaries
+            elif kind == "freq":
+                sd.split_frequencies
+            elif kind == "restore":
+                if len(ta):
+                    ta.restore_tree(0, summarize_splits_on_tree=True)
+    except Exception:   # noqa
+        pass
+
+
+SUMMARY_FIELDS = ("mean", "median", "sd", "range")
+
+
+def late_summaries(dendropy, tns, ta, o, i):
+    """what the next caller sees, read *before* anything recomputes the frequencies: the two per-split summary tables (in
+    either order) and the edge-length / node-age annotations `summarize_splits_on_tree` puts on a target tree"""
+    out = {}
+    try:
+        with time_limit(30):
+            sd = ta._split_distribution
+            target = None
+            if o.trees and i % 3 != 2:
+                target = build_tree(dendropy, tns, o.trees[-1][0])
+                if i % 3 == 0:
+                    ta.summarize_splits_on_tree(target)
+            if i % 2 == 0:
+                ages, lens = sd.split_node_age_summaries, sd.split_edge_length_summaries
+            else:
+                lens, ages = sd.split_edge_length_summaries, sd.split_node_age_summaries
+            out["lens"] = {int(k): {f: v.get(f) for f in SUMMARY_FIELDS} for k, v in lens.items()}
+            out["ages"] = {int(k): {f: v.get(f) for f in SUMMARY_FIELDS} for k, v in ages.items()}
+            if target is not None:
+                if i % 3 == 1:
+                    ta.summarize_splits_on_tree(target)
+                tgt = {}
+                for nd in target.postorder_node_iter():
+                    ann = dict(nd.annotations.values_as_dict())          # node ages are annotated on the node,
+                    ann.update(nd.edge.annotations.values_as_dict())     # edge lengths on its edge
+                    tgt[int(nd.edge.bipartition.split_bitmask)] = {k: v for k, v in ann.items()
+                                                                   if k.split("_")[0] in ("length", "age") and k.split("_", 1)[1] in SUMMARY_FIELDS}
+                out["target"] = tgt
+    except Exception as e:   # noqa
+        out["error"] = "%s: %s" % (type(e).__name__, str(e)[:120])
+    return out
+
+
+def brute_summary(vals):
+    """mean / median / sample sd / range of a list of Fractions, as floats"""
+    n = len(vals)
+    mean = sum(vals, Fraction(0)) / n
+    sv = sorted(vals)
+    med = sv[n // 2] if n % 2 else (sv[n // 2 - 1] + sv[n // 2]) / 2
+    sd = float("inf") if n == 1 else math.sqrt(float(sum(((x - mean) ** 2 for x in vals), Fraction(0)) / (n - 1)))
+    return {"mean": float(mean), "median": float(med), "sd": sd, "range": (float(sv[0]), float(sv[-1]))}
+
+
+def summaries_wrong(late, exp):
+    """clause 'same per-split collections of edge lengths and node ages' as the user reads them: the summary statistics of
+    every split equal those of the multiset the trees held give (recomputed here from the tree specifications)"""
+    if not late:
+        return None
+    if "error" in late:
+        return "reading the per-split summaries raised %s" % late["error"]
+    for table, label in (("lens", "length"), ("ages", "age")):
+        want = {int(k): brute_summary([Fraction(x) for x in v]) for k, v in exp["sd"][table] if "N" not in v}
+        got = late.get(table, {})
+        for s_, w in want.items():
+            if s_ not in got:
+                return "split %d has no %s summary although the trees held give the values %s" % (s_, label, dict(exp["sd"][table]).get(str(s_)))
+            for f in SUMMARY_FIELDS:
+                if got[s_][f] is None or not num_eq(got[s_][f], w[f]):
+                    return "%s %s of split %d is %r, the trees held give %r" % (label, f, s_, got[s_][f], w[f])
+        for s_ in got:
+            if s_ not in want and not any(str(s_) == k for k, _ in exp["sd"][table]):
+                return "split %d has a %s summary but occurs in no tree held" % (s_, label)
+        for s_, ann in late.get("target", {}).items():
+            if s_ in want:
+                for f in SUMMARY_FIELDS:
+                    key = "%s_%s" % (label, f)
+                    if key in ann and (ann[key] is None or not num_eq(ann[key], want[s_][f])):
+                        return "target tree: %s of split %d is %r, the trees held give %r" % (key, s_, ann[key], want[s_][f])
+    return None
+
+
 # ======================================================================================= histories
 def err_name(e):
     n = type(e).__name__
@@ -551,6 +659,12 @@ def exec_history(ctx, dendropy, case):
         name = op[0]
         res = "ok"
         must = None
+        if name == "q":
+            # an interim summary between additions: observes, must not change what later summaries say (the model has no
+            # caches, so this is not an operation of the model's history)
+            if op[1] < len(regs):
+                interim_query(dendropy, tns, regs[op[1]], oracle[op[1]], op[2])
+            continue
         if name != "new" and any(x >= len(regs) for x in ((op[1],) if name in ("add", "ins") else (op[1], op[2]))):
             continue      # refers to the result of a `+` that was rejected: not part of the history
         nops += 1
@@ -648,10 +762,14 @@ def exec_history(ctx, dendropy, case):
     nontrivial_case = merged_nonempty >= 1 or merged_empty >= 1
     theta_float = float(THETA)
     for i, (ta, o) in enumerate(zip(regs, oracle)):
+        # first of all, before anything refreshes the frequencies: the per-split summaries as the next caller would see them
+        late = late_summaries(dendropy, tns, ta, o, i)
         try:
             ci = canon_impl(ta, theta_float, full)
         except Exception as e:   # noqa
             ci = {"error": "%s: %s" % (type(e).__name__, str(e)[:100])}
+        if "error" not in ci:
+            ci["late"] = late
         qres, qerr = run_queries(ta, o.trees)
         canons.append((ci, qres, qerr))
         if failed or any(r.startswith("Internal") for r in results):
@@ -698,6 +816,11 @@ def exec_history(ctx, dendropy, case):
             continue
         if freq_differs(ci["freq"], exp["freq"]):
             fail("freq", "array %d: split frequencies %s, weighted fractions are %s" % (i, ci["freq"], exp["freq"]))
+            failed = True
+            continue
+        d = summaries_wrong(ci.get("late"), exp)
+        if d:
+            fail("summaries", "array %d (%d trees): %s" % (i, len(o.trees), d))
             failed = True
             continue
         if check_queries(fail, i, o, qres, fr, full):
@@ -957,11 +1080,13 @@ def gen_history(rng, max_taxa=7, max_ops=14):
             else:
                 ops.append(["add", d, rng.choice(["append", "add_tree"]), new_tree(d)])
             sizes[d] += 1
-        elif x < 0.9:
+        elif x < 0.85:
             d = rng.randrange(count)
             s = rng.randrange(count) if rng.random() < 0.92 else d
             ops.append([rng.choice(["upd", "upd", "ext", "iadd"]), d, s])
             sizes[d] += sizes[s]
+        elif x < 0.93:
+            ops.append(["q", rng.randrange(count), rng.choice(["cons", "mcc", "summarize", "props_ea", "props_ae", "freq", "restore"])])
         elif x < 0.97 and count < 6:
             a, b = rng.randrange(count), rng.randrange(count)
             ops.append(["plus", a, b])
@@ -1691,8 +1816,17 @@ def gen_partition_case(rng, ntrees=None, nparts=None):
         parts[rng.randrange(nparts)].append(j)
     arrival = rng.sample(range(nparts), nparts)
     decl = rng.choice([None, None, r])
-    return {"mode": "hist", "ntaxa": ntaxa,
-            "ops": partition_history(specs, flags, decl, parts, arrival, rng.choice(["upd", "ext", "iadd"]), rng.choice([None, decl]))}
+    ops = partition_history(specs, flags, decl, parts, arrival, rng.choice(["upd", "ext", "iadd"]), rng.choice([None, decl]))
+    if rng.random() < 0.6:
+        # the same trees once more, ONE AT A TIME with interim summaries between the additions: must agree with the merged master
+        reg = 1 + len(parts)
+        ops.append(["new", decl, *flags])
+        for sp in specs:
+            ops.append(["add", reg, rng.choice(["append", "add_tree"]), sp])
+            for _ in range(rng.randint(0, 2)):
+                ops.append(["q", reg, rng.choice(["cons", "mcc", "summarize", "props_ea", "props_ae", "freq", "restore"])])
+        ops.append(["q", 0, rng.choice(["cons", "mcc", "summarize"])])
+    return {"mode": "hist", "ntaxa": ntaxa, "ops": ops}
 
 
 def run_any(ctx, dendropy, case, pending):
